@@ -1,0 +1,55 @@
+//go:build verif
+
+package basestreamleecher
+
+// Machine-checked contracts for /verif (read as text by the VC generator; no code).
+//
+// Ghost model of the application callbacks: at most one session is "ongoing", with
+// session peer speer; nstart counts StartSession calls.
+//@ ghost ongoing bool
+//@ ghost speer string
+//@ ghost nstart int
+//@
+//@ funcfield Callbacks.OngoingSession
+//@   ensures result == ongoing
+//@ funcfield Callbacks.OngoingSessionPeer
+//@   ensures ongoing ==> result == speer
+//@ funcfield Callbacks.ShouldTerminateSession
+//@   ensures true
+//@ funcfield Callbacks.TerminateSession
+//@   modifies ongoing
+//@   ghost ongoing = false
+//@ funcfield Callbacks.SelectSessionPeerCandidates
+//@   ensures forall(i, 0, len(result), has(container(owner, "BaseLeecher", "callback").Peers, result[i]))
+//@ funcfield Callbacks.StartSession
+//@   requires !ongoing && len(candidates) > 0
+//@   modifies ongoing, speer, nstart
+//@   ghost ongoing = true
+//@   ghost nstart = old(nstart) + 1
+//@   ensures exists(i, 0, len(candidates), speer == candidates[i])
+//@
+//@ func (*BaseLeecher).Routine
+//@   requires d != nil
+//@   modifies ongoing, speer, nstart
+//@   ensures  [terminated] d.Terminated ==> ongoing == old(ongoing) && speer == old(speer) && nstart == old(nstart)
+//@   ensures  [one] old(nstart) <= nstart && nstart <= old(nstart) + 1
+//@   ensures  [registered] nstart > old(nstart) ==> ongoing && has(d.Peers, speer)
+//@   ensures  [keeps] nstart == old(nstart) ==> (ongoing ==> old(ongoing) && speer == old(speer))
+//@
+//@ func (*BaseLeecher).RegisterPeer
+//@   requires d != nil && d.Peers != nil
+//@   modifies d.Peers[peer]
+//@   ensures  !d.Terminated ==> has(d.Peers, peer)
+//@   ensures  result == nil
+//@
+//@ func (*BaseLeecher).UnregisterPeer
+//@   requires d != nil
+//@   modifies d.Peers[peer], ongoing, speer, nstart
+//@   ensures  [gone] !has(d.Peers, peer)
+//@   ensures  [nosession] !(ongoing && speer == peer)
+//@   ensures  result == nil
+//@
+//@ func (*BaseLeecher).Terminate
+//@   requires d != nil
+//@   modifies d.Terminated, ongoing
+//@   ensures  d.Terminated && !ongoing
